@@ -910,8 +910,20 @@ def c08_window():
         env = Env(None, mod)
         n, fr, hits, k = z3.Ints('n proj_from hits k')
         env.vars.update(n=n, proj_from=fr, hits=hits)
-        for st in stmts:
-            ex.assign(st.targets[0], ex.eval(st.value, env, mod), env, mod)
+        # loop-invariant temporaries hoisted out of the loop (e.g. dropped = proj_from - n): evaluate what can be evaluated from (n, proj_from)
+        for st in node.body:
+            if st is loop:
+                break
+            if isinstance(st, ast.Assign) and isinstance(st.targets[0], ast.Name) and st.targets[0].id not in ('n', 'proj_from', 'hits'):
+                try:
+                    ex.assign(st.targets[0], ex.eval(st.value, env, mod), env, mod)
+                except Exception:
+                    pass
+        try:
+            for st in stmts:
+                ex.assign(st.targets[0], ex.eval(st.value, env, mod), env, mod)
+        except Exception:
+            env.vars.pop('least', None)
         if 'least' not in env.vars or 'most' not in env.vars:
             # written in a form this all-sizes lemma cannot be read off from: nothing is claimed here; the window is still checked entry by entry
             # on concrete sizes by c08_project_one_axis and exhaustively for n <= 40 by the bounded driver
@@ -1815,7 +1827,8 @@ def c13_from_count_dict(npop):
                 try:
                     got = entry(arr, idx)
                 except Exception as e:
-                    out.append(struct('%s.entry%s' % (tag, '_'.join(map(str, idx))), False, 'result has no entry %r: %s' % (idx, e), fn))
+                    # the result is not an array the executor can index (an unmodelled library call in between): nothing is decided
+                    out.append(struct('%s.entry%s' % (tag, '_'.join(map(str, idx))), False, 'result has no entry %r: %s' % (idx, e), fn, undecided=True))
                     continue
                 out.append(prove_eq('%s.entry%s' % (tag, '_'.join(map(str, idx))), list(paths[0].pc), got, want, fn))
         return out
